@@ -34,18 +34,26 @@ type KeyID string
 // https://matrix.org/docs/spec/server_server/unstable.html#signing-json
 func SignJSON(signingName string, keyID KeyID, privateKey ed25519.PrivateKey, message []byte) (signed []byte, err error) {
 	// Existing signatures are carried over verbatim: they are not ours to decode.
-	preserve := struct {
-		Signatures map[string]map[KeyID]spec.RawJSON `json:"signatures"`
-		Unsigned   spec.RawJSON                      `json:"unsigned"`
-	}{
-		Signatures: map[string]map[KeyID]spec.RawJSON{},
+	// Only the members named exactly "signatures" and "unsigned" are special.
+	var preserve struct {
+		Signatures map[string]spec.RawJSON `json:"signatures"`
+		Unsigned   spec.RawJSON            `json:"unsigned"`
 	}
-	if err = json.Unmarshal(message, &preserve); err != nil {
+	if err = unmarshalExact(message, &preserve); err != nil {
 		return nil, err
 	}
 	if preserve.Signatures == nil {
-		// "signatures": null
-		preserve.Signatures = map[string]map[KeyID]spec.RawJSON{}
+		// no signatures yet, or "signatures": null
+		preserve.Signatures = map[string]spec.RawJSON{}
+	}
+	ownSignatures := map[KeyID]spec.RawJSON{}
+	if existing, ok := preserve.Signatures[signingName]; ok {
+		if err = json.Unmarshal(existing, &ownSignatures); err != nil {
+			return nil, err
+		}
+		if ownSignatures == nil {
+			ownSignatures = map[KeyID]spec.RawJSON{}
+		}
 	}
 	if message, err = sjson.DeleteBytes(message, "signatures"); err != nil {
 		return nil, err
@@ -61,12 +69,9 @@ func SignJSON(signingName string, keyID KeyID, privateKey ed25519.PrivateKey, me
 	if err != nil {
 		return nil, err
 	}
-	if existing, ok := preserve.Signatures[signingName]; ok && existing != nil {
-		preserve.Signatures[signingName][keyID] = signature
-	} else {
-		preserve.Signatures[signingName] = map[KeyID]spec.RawJSON{
-			keyID: signature,
-		}
+	ownSignatures[keyID] = signature
+	if preserve.Signatures[signingName], err = json.Marshal(ownSignatures); err != nil {
+		return nil, err
 	}
 	signatures, err := json.Marshal(preserve.Signatures)
 	if err != nil {
@@ -88,14 +93,22 @@ func SignJSON(signingName string, keyID KeyID, privateKey ed25519.PrivateKey, me
 
 // ListKeyIDs lists the key IDs a given entity has signed a message with.
 func ListKeyIDs(signingName string, message []byte) ([]KeyID, error) {
+	// Only the entity's own entry is decoded: what other entities put under
+	// "signatures" must not get in the way.
 	var object struct {
-		Signatures map[string]map[KeyID]json.RawMessage `json:"signatures"`
+		Signatures map[string]json.RawMessage `json:"signatures"`
 	}
-	if err := json.Unmarshal(message, &object); err != nil {
+	if err := unmarshalExact(message, &object); err != nil {
 		return nil, err
 	}
+	var own map[KeyID]json.RawMessage
+	if entry, ok := object.Signatures[signingName]; ok {
+		if err := json.Unmarshal(entry, &own); err != nil {
+			return nil, err
+		}
+	}
 	var result []KeyID
-	for keyID := range object.Signatures[signingName] {
+	for keyID := range own {
 		result = append(result, keyID)
 	}
 	return result, nil
@@ -107,21 +120,33 @@ func VerifyJSON(signingName string, keyID KeyID, publicKey ed25519.PublicKey, me
 	// This allows us to add and remove the top-level keys from the JSON object.
 	// It also ensures that the JSON is actually a valid JSON object.
 	var object map[string]*json.RawMessage
-	var signatures map[string]map[KeyID]spec.Base64Bytes
 	if err := json.Unmarshal(message, &object); err != nil {
 		return err
 	}
 
 	// Check that there is a signature from the entity that we are expecting a signature from.
+	// Entries of other entities, or under other key IDs, are not decoded: a
+	// malformed one must not invalidate this entity's signature.
 	if object["signatures"] == nil {
 		return fmt.Errorf("No signatures")
 	}
+	var signatures map[string]json.RawMessage
 	if err := json.Unmarshal(*object["signatures"], &signatures); err != nil {
 		return err
 	}
-	signature, ok := signatures[signingName][keyID]
+	var ownSignatures map[KeyID]json.RawMessage
+	if entry, ok := signatures[signingName]; ok {
+		if err := json.Unmarshal(entry, &ownSignatures); err != nil {
+			return err
+		}
+	}
+	rawSignature, ok := ownSignatures[keyID]
 	if !ok {
 		return fmt.Errorf("No signature from %q with ID %q", signingName, keyID)
+	}
+	var signature spec.Base64Bytes
+	if err := json.Unmarshal(rawSignature, &signature); err != nil {
+		return err
 	}
 	if len(signature) != ed25519.SignatureSize {
 		return fmt.Errorf("Bad signature length from %q with ID %q", signingName, keyID)
